@@ -138,6 +138,22 @@ func runC02(c *Ctx, tier string) {
 	}
 	r.Extra["sites_by_class"] = counts
 	r.Extra["ledger_lines"] = ledgerLines
+	nwit, nauto := 0, map[string]int{}
+	for _, l := range ledger {
+		if l.wit != "" {
+			nwit++
+		}
+	}
+	for _, s := range sites {
+		if i := strings.Index(s.how, ":"); i > 0 && i < 40 {
+			nauto[s.how[:i]]++
+		} else if s.how != "" {
+			nauto["other automatic"]++
+		}
+	}
+	r.Extra["ledger_lines_with_witness"] = nwit
+	r.Extra["automatic_discharges"] = nauto
+	r.Extra["pkix_name_stores_checked"] = auto.nStores
 	r.Extra["stale_ledger_lines"] = stale
 	r.Floor("unproven bounds checks reported by the compiler", 40, counts["bounds"])
 	r.Floor("unchecked type assertions", 10, counts["assert"])
